@@ -274,3 +274,46 @@ def rule_concluded_per_conclusion(db: ProgramDB) -> List[Instance]:
                         f"its variables only, so after the base concluded Label(item, 'K1') for an item the alternative's "
                         f"Label(item, 'K2') counts as already drawn for that item (and the other way round)", line=c.lineno))
     return out
+
+
+# ---------------------------------------------------------------------------------- RULE-ON-ENTER
+def rule_rule_on_enter(db: ProgramDB) -> List[Instance]:
+    """A query is evaluated as a rule (its selected variables take their values from the conclusions, not from the instances
+    that exist already) when its descriptor's `rule_mode` flag is set.  Conclusions can be attached to a query in two ways:
+    by writing it inside a rule block (the flag is set when the descriptor is built) and by opening a rule block ON it
+    afterwards (`with rule_mode(query):`).  Both ways have to set the flag, otherwise a match for which no conclusion applies
+    emits whatever instances of the selected type exist."""
+    from ..boolexpr import guards_of
+    out = []
+    qod = db.cls("QueryObjectDescriptor")
+    readers = [m for c in [qod] + qod.all_subclasses() for m in c.methods.values() if m.cls is c and any(
+        isinstance(x, ast.Attribute) and x.attr == "rule_mode" and isinstance(x.ctx, ast.Load) for x in own_nodes(m.node))]
+    if not readers:
+        raise AnalysisError("no reader of QueryObjectDescriptor.rule_mode found")
+    # (1) at construction
+    pi = qod.methods.get("__post_init__")
+    ok1 = pi is not None and any(isinstance(a, ast.Assign) and any(isinstance(t, ast.Attribute) and t.attr == "rule_mode" for t in a.targets)
+                                 and isinstance(a.value, ast.Constant) and a.value.value is True for a in own_nodes(pi.node))
+    out.append(inst("RULE-ON-ENTER", HOLDS if ok1 else VIOLATION, qod, "QueryObjectDescriptor.__post_init__[written inside a rule block]",
+                    "a descriptor built in rule mode is flagged as a rule" if ok1 else "a descriptor built in rule mode is not flagged as a rule"))
+    # (2) when a block is opened on the query
+    se = db.cls("SymbolicExpression")
+    en = se.methods.get("__enter__")
+    if en is None:
+        raise AnalysisError("SymbolicExpression.__enter__ not found")
+    sets = [a for a in own_nodes(en.node) if isinstance(a, ast.Assign) and any(isinstance(t, ast.Attribute) and t.attr == "rule_mode" for t in a.targets)
+            and isinstance(a.value, ast.Constant) and a.value.value is True]
+    ok2 = False
+    for a in sets:
+        g = guards_of(a, en.node.body) or []
+        if any("in_rule_mode" in unparse(t) and pol for t, pol in g):
+            ok2 = True
+    sm = db.fn("symbolic:symbolic_mode")
+    passes = any(isinstance(c, ast.Call) and call_attr(c) == "__enter__" and any(k.arg == "in_rule_mode" and isinstance(k.value, ast.Constant) and k.value.value is True
+                                                                                 for k in c.keywords) for c in own_calls(sm))
+    out.append(inst("RULE-ON-ENTER", HOLDS if ok2 and passes else VIOLATION, en, "SymbolicExpression.__enter__[a rule block opened on the query]",
+                    "opening a rule block on a query flags its descriptor as a rule" if ok2 and passes else
+                    "`with rule_mode(query):` does not flag the query's descriptor as a rule: for an(entity(v := let(type_=T), cond)) followed by "
+                    "rule_mode(query) the selected variable is not inferred, and a match without an applicable conclusion (a stopping refinement) "
+                    "emits every T that exists", line=en.lineno))
+    return out
